@@ -347,9 +347,10 @@ def rule_pawn_table(ctx):
     ctx.check(sorted(kinds) == sorted([("Queen", "color"), ("Rook", "color"), ("Knight", "color"), ("Bishop", "color")]), "pawn:four-promotions", "a move to the back rank explodes into exactly Q, R, N, B of the pawn's colour", eb.where(0),
               bad_what="promotion pieces are %s" % sorted(kinds))
     grd = [c for bi, t in eb.calls() if callee_is(t, "board::ply::builder::Builder::promoted_to") for c in C.constraints_for(ix, eb, esym, bi)]
-    ctx.check(any(c[3][0] == "bin" and c[3][1] == "Eq" and "dest.rank" in expr_str(c[3][2]) and c[3][3] == ("arg", "back_rank") and True in c[1] for c in grd), "pawn:promotion-on-back-rank", "promotion happens exactly when dest.rank == back_rank", eb.where(0), bad_what="the promotion guard is not dest.rank == back_rank")
+    ctx.check(any(c[3][0] == "bin" and "dest.rank" in expr_str(c[3][2]) and c[3][3] == ("arg", "back_rank") and
+                  ((c[3][1] == "Eq" and set(c[1]) == {True}) or (c[3][1] == "Ne" and set(c[1]) == {False})) for c in grd), "pawn:promotion-on-back-rank", "promotion happens exactly when dest.rank == back_rank", eb.where(0), bad_what="the promotion guard is not dest.rank == back_rank")
     # every pawn move goes through explode_promotion with this colour's back rank
-    used = [t for cb in ix.closures_of(PAWN_MS) for _b, t in cb.calls() if callee_is(t, "board::piece::pawn::Pawn::explode_promotion")]
+    used = [t for cb in ix.closures_of(PAWN_MS) + [b] for _b, t in cb.calls() if callee_is(t, "board::piece::pawn::Pawn::explode_promotion")]
     ctx.check(len(used) == 1, "pawn:all-moves-exploded", "the final flat_map sends every generated pawn move through explode_promotion", b.where(0), bad_what="explode_promotion is applied at %d places" % len(used))
 
 
